@@ -417,7 +417,7 @@ func TestC13(t *testing.T) {
 			base  int
 			delta []int
 		}
-		fam := []dcase{{"ROLZX", 16 << 20, []int{1, 3, 7, 12}}, {"ROLZ", 16 << 20, []int{1, 5, 12}}, {"BWT", 8 << 20, []int{4097}}, {"BWT", 4 << 20, []int{5, 4101, 77}}}
+		fam := []dcase{{"ROLZX", 16 << 20, []int{1, 3, 5, 6, 7, 9, 12}}, {"ROLZ", 16 << 20, []int{1, 5, 12}}, {"BWT", 8 << 20, []int{4097}}, {"BWT", 4 << 20, []int{5, 4101, 77}}}
 		if r.Thorough() {
 			all := []int{-1, 0, 1, 2, 3, 4, 5, 6, 7, 8, 9, 10, 11, 12, 13, 4097}
 			fam = []dcase{{"ROLZX", 16 << 20, all}, {"ROLZ", 16 << 20, all}, {"ROLZX", 32 << 20, []int{0, 2, 6, 12}}, {"ROLZ", 32 << 20, []int{2, 6}}}
@@ -430,7 +430,7 @@ func TestC13(t *testing.T) {
 					continue
 				}
 				c := C13Case{Transform: f.tr, Direct: idx%2 == 0, Entropy: "NONE", DataType: -1, Jobs: []uint{1, 1, 4, 12, 3, 32}[idx%6],
-					Data: gen.Recipe{Kind: []int{gen.KText, gen.KRuns, gen.KXML}[idx%3], Len: f.base + d, Seed: uint64(idx), P1: 1}}
+					Data: gen.Recipe{Kind: []int{gen.KText, gen.KDNA, gen.KExeX86, gen.KRuns, gen.KXML}[idx%5], Len: f.base + d, Seed: uint64(idx), P1: 1}}
 				o := c13Eval(r, c)
 				r.Label("directed:rolz-chunk-boundary")
 				if o.msg != "" {
